@@ -409,6 +409,11 @@ impl<'a, 'b, 'c> Emitter<'a, 'b, 'c> {
             }
             1 => {
                 if let Some(g) = self.global_of(ty, false) {
+                    // shared-everything-threads: global.atomic.get on an (unshared) i32 / i64
+                    // global; chosen by position, not by a tape read
+                    if !self.exec && self.p.threads && matches!(ty, VT::I32 | VT::I64) && (g as usize + self.out.len()) % 3 == 0 {
+                        return self.push(I::GlobalAtomicGet { ordering: we::Ordering::SeqCst, global_index: g });
+                    }
                     return self.push(I::GlobalGet(g));
                 }
             }
@@ -1317,6 +1322,29 @@ impl<'a, 'b, 'c> Emitter<'a, 'b, 'c> {
                 let g = *self.t.pick(&c);
                 let ty = self.s.globals[g as usize].ty;
                 self.expr(ty, d + 1);
+                if !self.exec && self.p.threads && matches!(ty, VT::I32 | VT::I64) {
+                    let o = we::Ordering::SeqCst;
+                    match (g as usize + self.out.len()) % 3 {
+                        0 => {
+                            self.push(I::GlobalAtomicSet { ordering: o, global_index: g });
+                            return false;
+                        }
+                        1 => {
+                            let i = match (self.out.len() / 3) % 6 {
+                                0 => I::GlobalAtomicRmwAdd { ordering: o, global_index: g },
+                                1 => I::GlobalAtomicRmwSub { ordering: o, global_index: g },
+                                2 => I::GlobalAtomicRmwAnd { ordering: o, global_index: g },
+                                3 => I::GlobalAtomicRmwOr { ordering: o, global_index: g },
+                                4 => I::GlobalAtomicRmwXor { ordering: o, global_index: g },
+                                _ => I::GlobalAtomicRmwXchg { ordering: o, global_index: g },
+                            };
+                            self.push(i);
+                            self.push(I::Drop);
+                            return false;
+                        }
+                        _ => {}
+                    }
+                }
                 self.push(I::GlobalSet(g));
                 false
             }
